@@ -105,6 +105,26 @@ theorem C05_knots_form (tol : K) (h0 : 0 ≤ tol) (l : List K)
   obtain ⟨u, m, h1, h2, h3, h4, _⟩ := exists_expand tol h0 l h
   exact ⟨u, m, h1, h2, h3, h4⟩
 
+/-- **C05: the two forms of `H_sw` coincide, and the model's certificates never fail.**  The
+Greville collocation matrix of the model is a well-shaped square matrix; if it has a left inverse
+`L` (Schoenberg–Whitney in its mathematical form) then the model's certified inverse exists
+(`Mat.invChecked = .ok Ni`: Gauss–Jordan completeness `Mat.inv_complete` and soundness
+`Mat.inv_left` from `Lemmas/SolveSound.lean`), and `invChecked` coincides with the plain `Mat.inv`
+on it — the certificate check of the model is redundant, never a source of `LinAlgError`. -/
+theorem C05_hsw_forms (b' : Basis K) (tol : K) (pts : Array K) (hg : b'.greville = .ok pts) :
+    Mat.invChecked (Obj.basisMat b' tol pts.toList 0 true) = Mat.inv (Obj.basisMat b' tol pts.toList 0 true) ∧
+    ∀ (L : ℕ → ℕ → K),
+      (∀ i j, i < pts.size → j < pts.size →
+        ∑ l ∈ Finset.range pts.size, L i l * (Obj.basisMat b' tol pts.toList 0 true).get l j
+          = if i = j then 1 else 0) →
+      ∃ Ni, Mat.invChecked (Obj.basisMat b' tol pts.toList 0 true) = .ok Ni := by
+  have hsz := greville_size b' pts hg
+  have hshape := basisMat_shape b' tol pts.toList (by simpa using hsz)
+  have hlen : pts.toList.length = pts.size := by simp
+  rw [hlen] at hshape
+  exact ⟨Mat.invChecked_eq_inv _ pts.size hshape,
+    fun L hL => Mat.invChecked_complete _ pts.size hshape L hL⟩
+
 /-- **C05, geometry (partial).**  One parametric direction (curves; and every per-direction step
 of the tensor-product interpolation).  `o` has the single basis `b` and control net of shape
 `[n, nc]` (`nc` homogeneous components: rational objects included, the interpolation is done in
@@ -119,7 +139,8 @@ the model's `raise_order_implicit` returns exactly the net `c'`, so the evaluate
 (`Σ_k N'_k(t) c'_k` for every `t`, every component) is unchanged; and whenever the model's
 `Curve.raise_order(a)`, `a ≥ 1`, succeeds it returns the receiver with the same net `c'`.
 The left-inverse property of the returned inverse is a theorem (`Mat.invChecked_spec`: the model
-checks the certificate `Ai·A = I` exactly), not an assumption.
+checks the certificate `Ai·A = I` exactly; by `C05_hsw_forms` the check never fails and the two
+forms of `H_sw` are equivalent), not an assumption.
 Missing for full strength: proofs of `H_incl` and `H_sw`; the composition of the per-direction
 steps for pardim 2–3 (commuting contractions of different axes) is not formalised; the link from
 the model's basis rows to the Cox–de Boor specification is property C01. -/
@@ -179,9 +200,10 @@ omit [IsStrictOrderedRing K] in
 With `rs` the normalised per-direction amounts (`*raises, direction=` handling):
 all amounts `0` ⇒ the receiver itself is returned, unchanged; any negative amount ⇒ `ValueError`;
 `set_order` = `raise_order` by the differences to the current orders, and `ValueError` when any
-target is below the current order.  (`Curve.raise_order` overrides the method and returns `None`
-for amount `0` — see the `example` below; that is a defect of the pinned code, reported by the
-correspondence oracle.) -/
+target is below the current order.  The `Curve.raise_order` override obeys the same contract
+(amount `0` ⇒ the receiver, amount `< 0` ⇒ `ValueError`; clauses 5–6).  In the pinned snapshot the
+override returned `None` for amount `0`; fixed upstream in 6ca09d8, the correspondence oracle
+reports it again if that shape returns. -/
 theorem C05_api (o : Obj K) (tol : K) :
     (∀ raises dir rs, Obj.normRaises o.pardim raises dir = .ok rs → (∀ r ∈ rs, r = 0) →
       o.raiseOrder tol raises dir = .ok (.self, o)) ∧
@@ -196,8 +218,10 @@ theorem C05_api (o : Obj K) (tol : K) :
           (o.bases.toList.map (fun b => (b.order : Int))), p.2 ≤ p.1) →
       o.setOrder tol isCurve order = o.raiseOrderDispatch tol isCurve
         ((List.zip (if order.length = 1 then List.replicate o.pardim (order.headD 0) else order)
-          (o.bases.toList.map (fun b => (b.order : Int)))).map (fun p => p.1 - p.2)) none) := by
-  refine ⟨?_, ?_, ?_, ?_⟩
+          (o.bases.toList.map (fun b => (b.order : Int)))).map (fun p => p.1 - p.2)) none) ∧
+    o.curveRaiseOrder tol 0 = .ok (.self, o) ∧
+    (∀ a : Int, a < 0 → o.curveRaiseOrder tol a = .error .value) := by
+  refine ⟨?_, ?_, ?_, ?_, by simp [Obj.curveRaiseOrder], fun a ha => by simp [Obj.curveRaiseOrder, ha]⟩
   · intro raises dir rs hn hz
     unfold Obj.raiseOrder
     rw [hn]
@@ -285,9 +309,11 @@ example : ((({ bases := #[c05B2], cps := { shape := [2, 2], data := #[0,0,2,4] }
       Obj ℚ).reinterpolate (1/100) [c05B3]).toOption.map (fun t => (t.shape, t.data)))
     = some ([3, 2], #[0,0,1,2,2,4]) := by decide +kernel
 
-/-- The model of `Curve.raise_order(0)` returns `None` (the pinned code's behaviour), not the receiver. -/
-example (o : Obj ℚ) (tol : ℚ) : o.curveRaiseOrder tol 0 = .ok (.none, o) := by
-  simp [Obj.curveRaiseOrder]
+/-- `Curve.raise_order(0)` and `Curve.set_order(current order)` return the receiver (the unfixed
+    shape of the code returned `None` here: `Ret.none`). -/
+example (o : Obj ℚ) (tol : ℚ) :
+    o.curveRaiseOrder tol 0 = .ok (.self, o) ∧ o.raiseOrderDispatch tol true [0] none = .ok (.self, o) := by
+  simp [Obj.curveRaiseOrder, Obj.raiseOrderDispatch]
 
 /-- `BSplineBasis.lower_order` on a periodic basis: `NameError` (whenever the argument checks and the
     `continuity` calls pass). -/
